@@ -81,7 +81,7 @@ Lemma scoped_shape_scan sc t c m body w w' :
   can_all m (kleaves (shape_of sc c)) (w_raw w) = true -> NoDup (leaves (shape_of sc c)) ->
   closure_scan [] (rev (w_trace w')) (leaves (shape_of sc c)) = (1, true).
 Proof.
-  intros [w1 [w2 [evA [evR [TA [NA [BA [RA [_ [HA [Hraw [_ [F [TR FR]]]]]]]]]]]]]] Tw H0 Can ND.
+  intros [w1 [w2 [evA [evR [TA [NA [BA [RA [_ [HA [Hraw [_ [F [TR [FR _]]]]]]]]]]]]]]] Tw H0 Can ND.
   destruct (fr_tr _ _ F) as [U [TU FU]]. cbn [emit w_trace] in TU.
   rewrite TR, TU, TA, Tw, app_nil_r.
   rewrite !rev_app_distr. cbn [rev]. rewrite <- !app_assoc. cbn [app].
